@@ -525,6 +525,63 @@ func c02Case(w *core.Worker, i int) {
 			viol("refused-but-written", "UPDATE", fmt.Sprintf("exit %d but the file changed", upd.Code), after)
 		}
 	}
+	// fixed-length files cannot be created by a statement: hand-written ones in the three layouts (header line,
+	// no header line, single line) are updated in place; cells, layout and — for an update that changes nothing — bytes are kept
+	if i%10 == 0 {
+		type fx struct {
+			name, body, pos string
+			noHeader       bool
+			want           [][]string
+		}
+		for _, f := range []fx{
+			{"fxh.txt", "id c1  \n1  abcd\n2  wxyz\n3  ijkl\n", "[3,7]", false, [][]string{{"1", "abcd"}, {"2", "UPD"}, {"3", "ijkl"}}},
+			{"fxn.txt", "1  abcd\n2  wxyz\n3  ijkl\n", "[3,7]", true, [][]string{{"1", "abcd"}, {"2", "UPD"}, {"3", "ijkl"}}},
+			{"fxs.txt", "1 abcd2 wxyz3 ijkl", "S[2,6]", true, [][]string{{"1", "abcd"}, {"2", "UPD"}, {"3", "ijkl"}}},
+		} {
+			fd := core.FreshDir(w.Work, "fixed")
+			core.WriteFiles(fd, map[string]string{f.name: f.body})
+			fa := append(csvqArgs("-q", "-f", "JSONL"), "--import-format", "FIXED", "--delimiter-positions", f.pos)
+			c1, c2 := "id", "c1"
+			if f.noHeader {
+				fa = append(fa, "--no-header")
+				c1, c2 = "c1", "c2"
+			}
+			run := func(q string) core.ProcResult {
+				return core.RunProc(core.ProcOpts{Dir: fd, Args: append(append([]string{}, fa...), q), Timeout: 60 * time.Second})
+			}
+			fviol := func(sig, what string) {
+				b, _ := os.ReadFile(filepath.Join(fd, f.name))
+				w.Violation(sig+":FIXED", fmt.Sprintf("fixed-length file %q (positions %s): %s; file now %q", f.body, f.pos, what, truncateStr(string(b), 200)), c02Replay{Bytes: f.body, Dialect: c02Dialect{Format: "FIXED", Positions: f.pos, NoHeader: f.noHeader}, Path: "UPDATE", Detail: what})
+			}
+			if r0 := run(fmt.Sprintf("UPDATE `%s` SET %s = %s", f.name, c2, c2)); r0.Code != 0 {
+				fviol("statement-error", "an UPDATE that changes nothing failed: "+truncateStr(r0.Stderr, 150))
+				continue
+			}
+			if b, _ := os.ReadFile(filepath.Join(fd, f.name)); string(b) != f.body {
+				fviol("dialect-changed", "an UPDATE that assigns every cell its own value rewrote the file differently")
+			}
+			if r1 := run(fmt.Sprintf("UPDATE `%s` SET %s = 'UPD' WHERE %s = 2", f.name, c2, c1)); r1.Code != 0 {
+				fviol("statement-error", "UPDATE failed: "+truncateStr(r1.Stderr, 150))
+				continue
+			}
+			r2 := run(fmt.Sprintf("SELECT %s AS a, %s AS b FROM `%s`", c1, c2, f.name))
+			var got []string
+			for _, l := range strings.Split(strings.TrimSpace(r2.Stdout), "\n") {
+				got = append(got, strings.TrimSpace(l))
+			}
+			var want []string
+			for _, wr := range f.want {
+				want = append(want, fmt.Sprintf(`{"a":%s,"b":%q}`, wr[0], wr[1]))
+			}
+			norm := func(xs []string) string {
+				return strings.ReplaceAll(strings.ReplaceAll(strings.Join(xs, "|"), `"a":"`, `"a":`), `","b"`, `,"b"`)
+			}
+			if r2.Code != 0 || norm(got) != norm(want) {
+				fviol("cell-differs", fmt.Sprintf("after UPDATE of one cell the file reads back as %v (exit %d), expected %v", got, r2.Code, want))
+			}
+			w.Count("fixed_length_files_updated", 1)
+		}
+	}
 	if i < 30 {
 		w.Sample(map[string]interface{}{"dialect": d, "header": hdr, "rows": nrows, "probe_class": probe.class, "write_paths_compared": compared})
 	}
